@@ -200,6 +200,33 @@ pub fn c14(thorough: bool, seed: u64) -> CheckOutput {
         |a, b| a.merge(b),
     );
     acc.merge(steer_acc);
+    // recipe-steered block: typed opcodes and aliases stored back into their own object, incl.
+    // aliases that travel through the memo
+    let n_rec = if thorough { 12_000 } else { 1_500 };
+    let rec_acc = par_run(
+        n_rec,
+        Acc::new,
+        |i, acc| {
+            let proto = (i % 6) as u8;
+            let base = Config::default_for(proto, Entropy::Bytes(vec![]));
+            let cfg = crate::mon_trace::object_heavy(&base, mix(seed ^ 0x2EC1, i as u64));
+            check_c14(&cfg, Life::Drop, acc);
+            acc.count("recipe_steered_cases", 1);
+            if i % 4 == 0 {
+                let res = run_case(&cfg, None);
+                if let Outcome::Ok(b) = &res.outcome {
+                    let a = analyze(b, true);
+                    if a.cycles > 0 {
+                        acc.count("recipe_steered_outputs_with_identity_cycle", 1);
+                        acc.ins_nontrivial(hash128(b));
+                    }
+                    acc.ins_distinct(hash128(b));
+                }
+            }
+        },
+        |a, b| a.merge(b),
+    );
+    acc.merge(rec_acc);
     // long histories (W7): one generator reused with reset(), as the Python wrapper does; then dropped
     let n_hist = if thorough { 64 } else { 16 };
     let gens_per = if thorough { 20_000 } else { 4_000 };
@@ -790,6 +817,19 @@ pub fn c09(thorough: bool, seed: u64) -> CheckOutput {
             ));
         }
     }
+    // hostile buffer-size hints (an allocation failure aborts the process, so: child processes)
+    for (k, size) in [usize::MAX, 1usize << 60, isize::MAX as usize, 1usize << 40, 0].iter().enumerate() {
+        child_cases.push((
+            format!("bufsize-{}-P{}", size, k % 6),
+            Config {
+                bufsize: Some(*size),
+                min: 10,
+                max: 40,
+                ..Config::default_for((k % 6) as u8, Entropy::Seed(seed.wrapping_add(k as u64)))
+            },
+            false,
+        ));
+    }
     let cc = &child_cases;
     let child_acc = par_run(
         cc.len(),
@@ -808,7 +848,7 @@ pub fn c09(thorough: bool, seed: u64) -> CheckOutput {
                 .stdout(Stdio::piped())
                 .stderr(Stdio::piped());
             let t0 = Instant::now();
-            let mut ch = cmd.spawn().expect("spawn child");
+            let mut ch = cmd.spawn().unwrap_or_else(|e| panic!("spawn child {:?}: {}", exe, e));
             // generous wall-clock watchdog: its firing is inconclusive, never a violation
             let limit = Duration::from_secs(600);
             let status = loop {
@@ -938,6 +978,12 @@ fn c07_cases(seed: u64, n: usize) -> Vec<Config> {
         }
         v.push(c);
     }
+    // one generation that runs for well over a second (a wall-clock cut-off would show here)
+    v.push(Config {
+        min: 24_000,
+        max: 24_000,
+        ..Config::default_for(4, Entropy::Seed(seed ^ 0x10AD))
+    });
     v
 }
 
